@@ -3,7 +3,7 @@
 # strings, off-domain mixes and the constructs each property concentrates on.  All randomness from `rng`.
 from tmpl import js_src
 
-WORDS = [b"a", b"b", b"ab", b"x", b"Hello", b"foo bar", b"z9", b"", b"  ", b"0", b"12", b"-3", b"k1", b"true", b"A-Z"]
+WORDS = [b"a", b"b", b"ab", b"x", b"Hello", b"foo bar", b"z9", b"", b"  ", b"0", b"12", b"-3", b"k1", b"true", b"A-Z", b"5%", b"%d"]
 HOSTILE = [b"<b>", b"</div>", b'"', b"'", b"&", b"&amp;", b"<script>alert(1)</script>", b'" onload="x', b"a<b>c&d\"e'f",
            b"{{", b"}}", b"{{.}}", b"{{- x -}}", b"`", b"\\", b"&#34;", b"<!--", b"]]>", b"\xc3\xa9", b"\xe2\x82\xac<", b"<<>>",
            b"a&b", b"'><img src=x>", b"{{/* c */}}", b"${x}", b"$", b"a\tb", b"x\ny"]
@@ -236,7 +236,7 @@ class TGen:
         if r.random() < self.hostile:
             return ('text', r.choice(HOSTILE))
         return ('text', r.choice([b"Hello", b" ", b"a b", b"x", b" lead", b"trail ", b"\n", b" mid dle ", b"1 < 2", b"A&B",
-                                   b"caf\xc3\xa9", b"--", b"{", b"}", b"{ {", b"-}"]))
+                                   b"caf\xc3\xa9", b"--", b"{", b"}", b"{ {", b"-}", b"50% off", b"%s", b"100%"]))
 
     def buffered(self, env, esc=True, t=None):
         e = self.expr(env, t) if t else self.any_scalar(env)
